@@ -103,3 +103,13 @@ func verifC15Order(mem *Mempool, accounts []common.Address) []common.Address {
 	}
 	return accounts
 }
+
+// VerifC15SeamActive reports whether this build contains the seam: it runs promoteExecutables(nil) on mem (call it on
+// a pool whose future queues are empty: nothing to promote, no effect) and looks whether the seam was reached.
+func VerifC15SeamActive(mem *Mempool) bool {
+	before := VerifC15OrderCalls
+	mem.proxyMtx.Lock()
+	mem.promoteExecutables(nil)
+	mem.proxyMtx.Unlock()
+	return VerifC15OrderCalls > before
+}
